@@ -175,10 +175,8 @@ theorem C10_delete_topic_all (ops : List SysOp) (raw : Bytes) (n : Name) (t : To
 section P1slice
 open P1
 
-/-- The step at which CreateSubscription answers OK (`mark_attach_finished` follows the topic's reply):
-    the subscription is then registered and attached — every later request observes both. -/
 theorem C10_create_returns_registered (s s' : State) (hr : Reachable (init true) s) (g : Nat)
-    (hs : step s (.attachFinish g) = some s') : s'.mgr = some g ∧ s'.topic = some g := by
+    (hs : step s (.attachFinish g) = some s') : s'.mgr = some g ∧ (s'.tdead = false → s'.topic = some g) := by
   have h := inv_reachable s hr
   have h' := inv_step h _ hs
   simp only [step] at hs
@@ -188,22 +186,19 @@ theorem C10_create_returns_registered (s s' : State) (hr : Reachable (init true)
     simp only [Option.some.injEq] at hs
     have hm' : s'.mgr = some g := by rw [← hs]; exact hm
     obtain ⟨_, _, c3, _, _, c6, _⟩ := h'.cur g hm'
-    refine ⟨hm', ?_⟩
-    rw [c3]
+    refine ⟨hm', fun hlive => ?_⟩
+    rw [c3 hlive]
     have ha : (s'.gen g).att = .finished := by rw [← hs]; simp [upd]
     have hh : (s'.gen g).helper = .none := by
       obtain ⟨_, _, _, _, _, d6, _⟩ := h.cur g hm
-      have : (s.gen g).helper = .none := by
-        cases hx : (s.gen g).helper <;> first | rfl | (have := d6 (by rw [hx]; simp); rw [hg] at this; cases this)
+      have : (s.gen g).helper = .none := helper_none_of_att d6 (by rw [hg]; simp)
       rw [← hs]; simp [upd, this]
     simp [expectedTopic, ha, hh]
   · cases hs
 
-/-- The step at which DeleteSubscription answers OK (`finish_delete`) removes exactly the registered
-    generation it was called on, and that generation is already detached from the topic: afterwards
-    the name is absent everywhere. -/
 theorem C10_delete_returns_absent (s s' : State) (hr : Reachable (init true) s) (g : Nat)
-    (hs : step s (.helperFinish g) = some s') : s.mgr = some g ∧ s'.mgr = none ∧ s'.topic = none ∧ s'.mbT = [] := by
+    (hs : step s (.helperFinish g) = some s') :
+    s.mgr = some g ∧ s'.mgr = none ∧ (s'.tdead = false → s'.topic = none) ∧ s'.mbT = [] := by
   have h := inv_reachable s hr
   have h' := inv_step h _ hs
   simp only [step] at hs
@@ -215,9 +210,8 @@ theorem C10_delete_returns_absent (s s' : State) (hr : Reachable (init true) s) 
     exact ⟨hm, hm', h'.empty hm'⟩
   · cases hs
 
-/-- A name can be re-created only after the previous generation is completely gone. -/
 theorem C10_recreate_after_gone (s s' : State) (hr : Reachable (init true) s) (hs : step s .create = some s') :
-    s.topic = none ∧ s.mbT = [] ∧ ∀ g, g < s.next → (s.gen g).att = .finished ∧ (s.gen g).helper = .done := by
+    (s.tdead = false → s.topic = none) ∧ s.mbT = [] ∧ ∀ g, g < s.next → (s.gen g).att = .finished ∧ (s.gen g).helper = .done := by
   have h := inv_reachable s hr
   simp only [step] at hs
   split at hs
@@ -229,31 +223,50 @@ theorem C10_recreate_after_gone (s s' : State) (hr : Reachable (init true) s) (h
   · cases hs
 
 /-- The atomic specification of one name: present or absent. `create` is the linearization point
-    of a successful CreateSubscription, `helperFinish` (= `finish_delete`) that of a successful
-    DeleteSubscription; every other step of the protocol is invisible to the specification. -/
-def P1.spec (present : Bool) : Label → Option Bool
-  | .create => if present then none else some true
-  | .helperFinish _ => if present then some false else none
-  | _ => some present
+    of a successful CreateSubscription; `helperFinish` (= `finish_delete` after the detach) and the
+    direct finish on a dead topic are those of a successful DeleteSubscription; every other step
+    of the protocol — including the deletion of the topic — is invisible to the specification. -/
+def spec (present : Bool) (l : Label) (present' : Bool) : Prop :=
+  match l with
+  | .create => present = false ∧ present' = true
+  | .helperFinish _ => present = true ∧ present' = false
+  | .actorDeleteDirect _ => present' = present ∨ (present = true ∧ present' = false)
+  | _ => present' = present
 
-/-- Forward simulation: every step of the concrete create/delete protocol — under every
-    interleaving — is a legal step of the atomic name specification, with the manager entry as
-    abstraction. Together with `C10_create_returns_registered` / `C10_delete_returns_absent` (the
-    answering steps lie after the linearization points, within the calls) this is per-name
-    linearizability of create / delete / get for the protocol model. -/
 theorem C10_lp_sim (s s' : State) (hr : Reachable (init true) s) (l : Label) (hs : step s l = some s') :
-    P1.spec s.mgr.isSome l = some s'.mgr.isSome := by
+    spec s.mgr.isSome l s'.mgr.isSome := by
   cases l with
   | create =>
     simp only [step] at hs
     split at hs
     · rename_i hn
       simp only [Option.some.injEq] at hs; subst hs
-      simp [P1.spec, hn]
+      simp [spec, hn]
     · cases hs
   | helperFinish g =>
     have h := (C10_delete_returns_absent s s' hr g hs)
-    simp [P1.spec, h.1, h.2.1]
+    simp [spec, h.1, h.2.1]
+  | actorDeleteDirect i =>
+    have hinv := inv_reachable s hr
+    simp only [step] at hs
+    split at hs
+    · cases hs
+    · rename_i g _
+      split at hs
+      · cases hs
+      · split at hs
+        · cases hs
+        · rename_i hw
+          split at hs
+          · simp only [Option.some.injEq] at hs; subst hs; exact Or.inl rfl
+          · rename_i hd
+            simp only [Option.some.injEq] at hs; subst hs
+            have hfin : (s.gen g).att = .finished := by
+              by_cases hc : (s.gen g).att = .finished
+              · exact hc
+              · exact absurd ⟨hinv.rep, hc⟩ hw
+            have hm := active_is_cur hinv g (Or.inr (Or.inr ⟨hfin, by simpa using hd⟩))
+            right; simp [hm]
   | attachSend g =>
     simp only [step] at hs; split at hs
     · simp only [Option.some.injEq] at hs; subst hs; rfl
@@ -283,19 +296,24 @@ theorem C10_lp_sim (s s' : State) (hr : Reachable (init true) s) (l : Label) (hs
     simp only [step] at hs; split at hs
     · simp only [Option.some.injEq] at hs; subst hs; rfl
     · cases hs
+  | topicDie =>
+    simp only [step] at hs; split at hs
+    · cases hs
+    · simp only [Option.some.injEq] at hs; subst hs; rfl
+  | retarget g =>
+    simp only [step] at hs; split at hs
+    · simp only [Option.some.injEq] at hs; subst hs; rfl
+    · cases hs
 
-/-- Whole runs: the abstraction of a run's final state is what the specification computes from the
-    run's labels. -/
-def P1.specRun : Bool → List Label → Option Bool
-  | b, [] => some b
-  | b, l :: ls => match P1.spec b l with
-    | some b' => P1.specRun b' ls
-    | none => none
+/-- Whole runs follow the specification step by step. -/
+inductive specRun : Bool → List Label → Bool → Prop
+  | nil (b : Bool) : specRun b [] b
+  | cons {b b' b'' : Bool} {l : Label} {ls : List Label} : spec b l b' → specRun b' ls b'' → specRun b (l :: ls) b''
 
 theorem C10_lp_run (ls : List Label) : ∀ (s s' : State), Reachable (init true) s → run s ls = some s' →
-    P1.specRun s.mgr.isSome ls = some s'.mgr.isSome := by
+    specRun s.mgr.isSome ls s'.mgr.isSome := by
   induction ls with
-  | nil => intro s s' _ h; simp only [run, Option.some.injEq] at h; subst h; rfl
+  | nil => intro s s' _ h; simp only [run, Option.some.injEq] at h; subst h; exact specRun.nil _
   | cons l rest ih =>
     intro s s' hr h
     simp only [run] at h
@@ -303,8 +321,7 @@ theorem C10_lp_run (ls : List Label) : ∀ (s s' : State), Reachable (init true)
     | none => rw [hs] at h; cases h
     | some s1 =>
       rw [hs] at h
-      simp only [P1.specRun, C10_lp_sim s s1 hr l hs]
-      exact ih s1 s' (Reachable.step hr hs) h
+      exact specRun.cons (C10_lp_sim s s1 hr l hs) (ih s1 s' (Reachable.step hr hs) h)
 
 end P1slice
 
